@@ -420,11 +420,19 @@ func (w *World) strLitDecls() string {
 }
 
 // implementers of an interface among all named types of repo packages
-func (w *World) implementers(iface *types.Interface, key string) []types.Type {
+func (w *World) implementers(iface *types.Interface, key string, ifaceT types.Type) []types.Type {
 	if r, ok := w.implCache[key]; ok {
 		return r
 	}
 	var out []types.Type
+	// an instantiated generic interface (mapset.Container[K]) is implemented by
+	// the repository's generic types instantiated with the same arguments
+	var targs []types.Type
+	if n, ok := types.Unalias(ifaceT).(*types.Named); ok && n.TypeArgs() != nil {
+		for i := 0; i < n.TypeArgs().Len(); i++ {
+			targs = append(targs, n.TypeArgs().At(i))
+		}
+	}
 	var paths []string
 	for path := range w.pkgs {
 		paths = append(paths, path)
@@ -446,7 +454,14 @@ func (w *World) implementers(iface *types.Interface, key string) []types.Type {
 				continue
 			}
 			if n, ok := t.(*types.Named); ok && n.TypeParams().Len() > 0 {
-				continue
+				if len(targs) != n.TypeParams().Len() {
+					continue
+				}
+				inst, err := types.Instantiate(nil, n, targs, true)
+				if err != nil {
+					continue
+				}
+				t = inst
 			}
 			if types.Implements(t, iface) {
 				out = append(out, t)
